@@ -182,25 +182,32 @@ func (e *evIn) event() *gostatsd.Event {
 // lock-step executor
 
 type lockExec struct {
-	ch    *statsd.CloudHandler
-	cache *scriptCache
-	down  *capHandler
-	ctx   context.Context
+	ch      *statsd.CloudHandler
+	cache   *scriptCache
+	down    *capHandler
+	ctx     context.Context
+	cancel  context.CancelFunc
+	runDone chan struct{}
+	wedged  bool // Run stopped serving its channels: the rest of the case is skipped
 
-	sent     []string // popped towards IpSink, unanswered (harness bookkeeping for the generator)
-	answered []string
-	steps    []string
-	done     []opIn
-	trace    []interface{}
-	monitors []string
+	regLoaded bool     // harness belief: Run's send register holds a source (only used to pick timeouts)
+	sent      []string // received on IpSink, unanswered (harness bookkeeping for the generator)
+	answered  []string
+	steps     []string
+	done      []opIn
+	trace     []interface{}
+	monitors  []string
 
-	nPark, nHit, nInfoBoth, nInfoSpurious, nInfoDup, nPosRelease, nNegRelease, nSend, nMixed, nMultiSrc int
+	nPark, nHit, nInfoBoth, nInfoSpurious, nInfoDup, nPosRelease, nNegRelease, nSend, nMixed, nMultiSrc, nCollide, nDeepStack int
 }
 
 func newLockExec() *lockExec {
 	c := newScriptCache()
 	d := newCapHandler()
-	return &lockExec{ch: statsd.NewCloudHandler(c, d), cache: c, down: d, ctx: context.Background()}
+	ctx, cancel := context.WithCancel(context.Background())
+	x := &lockExec{ch: statsd.NewCloudHandler(c, d), cache: c, down: d, ctx: ctx, cancel: cancel, runDone: make(chan struct{})}
+	go func() { x.ch.Run(ctx); close(x.runDone) }()
+	return x
 }
 
 func removeOne(l []string, s string) []string {
@@ -245,39 +252,106 @@ func dedupPeek(p []peekEnt) []peekEnt {
 	return out
 }
 
-// exec runs one op on the real handler; false = the op is not enabled (nothing pending to send)
+// statser for one emit: done is closed when the last of the three queue gauges was reported
+type emitCatcher struct {
+	gaugeCatcher
+	done chan struct{}
+}
+
+func (g *emitCatcher) Gauge(name string, v float64, tags gostatsd.Tags) {
+	g.gaugeCatcher.Gauge(name, v, tags)
+	if name == "cloudprovider.items_queued" {
+		close(g.done)
+	}
+}
+
+const wedgeTimeout = 5 * time.Second
+
+// emitOnce pushes a statser through Run's emit arm.  The send completes only when Run is idle in its
+// select, i.e. when the previous arm and the refill after it are done.
+func (x *lockExec) emitOnce() ([3]float64, bool) {
+	gc := &emitCatcher{gaugeCatcher: gaugeCatcher{got: map[string]float64{}}, done: make(chan struct{})}
+	select {
+	case x.ch.VerifEmitChan() <- gc:
+	case <-time.After(wedgeTimeout):
+		return [3]float64{}, false
+	}
+	select {
+	case <-gc.done:
+	case <-time.After(wedgeTimeout):
+		return [3]float64{}, false
+	}
+	g1, ok1 := gc.got["cloudprovider.hosts_queued|type:metric"]
+	g2, ok2 := gc.got["cloudprovider.hosts_queued|type:event"]
+	g3, ok3 := gc.got["cloudprovider.items_queued|type:event"]
+	if !(ok1 && ok2 && ok3) {
+		x.monitors = append(x.monitors, fmt.Sprintf("step %d: emit did not report the three queue gauges: %v", len(x.steps), gc.got))
+	}
+	return [3]float64{g1, g2, g3}, true
+}
+
+// barrier = two emit arms; after the second one was served the loop iteration of the preceding
+// arm is complete and nothing of Run's state changes until the next arm
+func (x *lockExec) barrier() ([3]float64, bool) {
+	a, ok := x.emitOnce()
+	if !ok {
+		return a, false
+	}
+	b, ok := x.emitOnce()
+	if ok && a != b {
+		x.monitors = append(x.monitors, fmt.Sprintf("step %d: two consecutive emits reported different gauges %v / %v", len(x.steps), a, b))
+	}
+	return b, ok
+}
+
+func (x *lockExec) wedge(what string) bool {
+	x.wedged = true
+	x.monitors = append(x.monitors, fmt.Sprintf("step %d: %s within %v: Run no longer serves its channels", len(x.steps), what, wedgeTimeout))
+	return false
+}
+
+func keysOf(st statsd.VerifCloudState) map[string]bool {
+	k := map[string]bool{}
+	for s := range st.AwaitingMetrics {
+		k[string(s)] = true
+	}
+	for s := range st.AwaitingEvents {
+		k[string(s)] = true
+	}
+	return k
+}
+
+// exec runs one op against the real Run loop; false = the op is not enabled (nothing pending to send)
 func (x *lockExec) exec(op opIn) bool {
+	if x.wedged {
+		return false
+	}
 	var label string
 	tr := map[string]interface{}{"op": op.Op}
 	wantM, wantE := 0, 0 // asynchronous deliveries to wait for
+	pre := x.ch.VerifState()
+	dctx, dcancel := context.WithTimeout(context.Background(), wedgeTimeout)
+	defer dcancel()
 	switch op.Op {
 	case "metrics":
 		announce("OP", op)
 		mm := mmgen.Build(op.Dps)
 		entries := mmgen.Entries(mm)
 		x.setPeek(op.Peek)
-		var got *gostatsd.MetricMap
-		res := make(chan *gostatsd.MetricMap, 1)
-		stop := make(chan struct{})
-		go func() {
-			select {
-			case m := <-x.ch.VerifIncomingMetrics():
-				res <- m
-			case <-stop:
-				res <- nil
-			}
-		}()
-		x.ch.DispatchMetricMap(x.ctx, mm)
-		close(stop)
-		got = <-res
-		if got != nil {
-			x.ch.VerifHandleIncomingMetrics(got)
-			x.nPark++
-			tr["parked_series"] = mmgen.Size(got)
+		x.ch.DispatchMetricMap(dctx, mm)
+		if dctx.Err() != nil {
+			return x.wedge("the misses of DispatchMetricMap were not received")
 		}
 		srcs := map[string]bool{}
+		missed := false
 		for _, d := range op.Dps {
 			srcs[d.Source] = true
+			if _, hit := x.cache.Peek(gostatsd.Source(d.Source)); !hit && d.Source != "" {
+				missed = true
+			}
+		}
+		if missed {
+			x.nPark++
 		}
 		if len(srcs) > 1 {
 			x.nMultiSrc++
@@ -288,39 +362,44 @@ func (x *lockExec) exec(op opIn) bool {
 		announce("OP", op)
 		e := op.Ev.event()
 		x.setPeek(op.Peek)
-		res := make(chan *gostatsd.Event, 1)
-		stop := make(chan struct{})
-		go func() {
-			select {
-			case ev := <-x.ch.VerifIncomingEvents():
-				res <- ev
-			case <-stop:
-				res <- nil
-			}
-		}()
 		label = hlib.App("ArriveEvent", coqEvent(e), coqPeek(dedupPeek(op.Peek)))
-		x.ch.DispatchEvent(x.ctx, e)
-		close(stop)
-		if got := <-res; got != nil {
-			x.ch.VerifHandleIncomingEvent(got)
+		x.ch.DispatchEvent(dctx, e)
+		if dctx.Err() != nil {
+			return x.wedge("the event of DispatchEvent was not received")
+		}
+		if _, hit := x.cache.Peek(gostatsd.Source(op.Ev.Src)); !hit && op.Ev.Src != "" {
 			x.nPark++
 			tr["parked"] = true
 		}
 		tr["src"] = op.Ev.Src
 	case "send":
-		s, ok := x.ch.VerifPopLookup()
-		if !ok {
+		// play the cache: receive what Run offers on IpSink()
+		wait := 300 * time.Microsecond
+		if x.regLoaded {
+			wait = wedgeTimeout
+		}
+		select {
+		case s := <-x.cache.sink:
+			op.S = string(s)
+		case <-time.After(wait):
+			if x.regLoaded {
+				announce("OP", op)
+				x.monitors = append(x.monitors, fmt.Sprintf("step %d: lookups are pending (toLookupIPs=%q) but nothing was offered on IpSink() within %v",
+					len(x.steps), pre.ToLookup, wait))
+				x.regLoaded = false
+			}
 			return false
 		}
-		op.S = string(s)
 		announce("OP", op)
 		x.sent = append(x.sent, op.S)
 		x.nSend++
+		if len(pre.ToLookup) >= 2 {
+			x.nDeepStack++
+		}
 		label = hlib.App("SendLookup", hlib.Bytes(op.S))
 		tr["s"] = op.S
 	case "info":
 		announce("OP", op)
-		pre := x.ch.VerifState()
 		src := gostatsd.Source(op.S)
 		if pre.AwaitingMetrics[src] != nil {
 			wantM = 1
@@ -344,7 +423,11 @@ func (x *lockExec) exec(op opIn) bool {
 		} else {
 			x.nInfoSpurious++
 		}
-		x.ch.VerifHandleInstanceInfo(x.ctx, gostatsd.InstanceInfo{IP: src, Instance: toInstance(op.I)})
+		select {
+		case x.cache.source <- gostatsd.InstanceInfo{IP: src, Instance: toInstance(op.I)}:
+		case <-time.After(wedgeTimeout):
+			return x.wedge("the lookup result was not received from InfoSource()")
+		}
 		label = hlib.App("Info", hlib.Bytes(op.S), coqInst(toInstance(op.I)))
 		tr["s"], tr["found"], tr["release_mm"], tr["release_events"] = op.S, op.I != nil, wantM, wantE
 	case "emit":
@@ -353,19 +436,23 @@ func (x *lockExec) exec(op opIn) bool {
 	default:
 		return false
 	}
+	g, ok := x.barrier()
+	if !ok {
+		return x.wedge("a statser sent on emitChan was not served")
+	}
 	// the releases run in fresh goroutines: wait for exactly what the handler's own state promised
 	if wantM+wantE > 0 {
-		if !x.down.waitFor(wantM, wantE, 5*time.Second) {
+		if !x.down.waitFor(wantM, wantE, wedgeTimeout) {
 			m, e := x.down.counts()
 			x.monitors = append(x.monitors, fmt.Sprintf("step %d: Info %q released a parked map=%v and %d parked events but only %d maps / %d events reached downstream within 5s",
 				len(x.steps), op.S, wantM == 1, wantE, m, e))
 		}
 	}
-	x.observe(label, op, tr)
+	x.observe(label, op, tr, pre, g)
 	return true
 }
 
-func (x *lockExec) observe(label string, op opIn, tr map[string]interface{}) {
+func (x *lockExec) observe(label string, op opIn, tr map[string]interface{}, pre statsd.VerifCloudState, g [3]float64) {
 	mms, evs := x.down.take()
 	nHit := 0
 	mmDumps := make([]string, len(mms))
@@ -375,8 +462,48 @@ func (x *lockExec) observe(label string, op opIn, tr map[string]interface{}) {
 	}
 	if op.Op == "metrics" || op.Op == "event" {
 		x.nHit += nHit + len(evs)
+		if op.Op == "metrics" {
+			// series that entered as hits but left merged: a collision after re-keying
+			hits := 0
+			for _, d := range op.Dps {
+				if _, hit := x.cache.Peek(gostatsd.Source(d.Source)); hit || d.Source == "" {
+					hits++
+				}
+			}
+			in := mmgen.Build(op.Dps)
+			inHit := 0
+			count := func(src gostatsd.Source) {
+				if _, hit := x.cache.Peek(src); hit || src == "" {
+					inHit++
+				}
+			}
+			in.Counters.Each(func(_, _ string, c gostatsd.Counter) { count(c.Source) })
+			in.Gauges.Each(func(_, _ string, c gostatsd.Gauge) { count(c.Source) })
+			in.Timers.Each(func(_, _ string, c gostatsd.Timer) { count(c.Source) })
+			in.Sets.Each(func(_, _ string, c gostatsd.Set) { count(c.Source) })
+			if nHit < inHit {
+				x.nCollide++
+				tr["collided"] = inHit - nHit
+			}
+		}
 	}
 	st := x.ch.VerifState()
+	// belief about the send register (see exec "send")
+	pushes := 0
+	pk := keysOf(pre)
+	for k := range keysOf(st) {
+		if !pk[k] {
+			pushes++
+		}
+	}
+	switch {
+	case len(st.ToLookup) > 0:
+		x.regLoaded = true
+	case op.Op == "send":
+		x.regLoaded = len(pre.ToLookup) >= 1
+	default:
+		x.regLoaded = x.regLoaded || pushes >= 1
+	}
 	var mk, ek []string
 	for k := range st.AwaitingMetrics {
 		mk = append(mk, string(k))
@@ -402,30 +529,30 @@ func (x *lockExec) observe(label string, op opIn, tr map[string]interface{}) {
 		aE[i] = hlib.Pair(hlib.Bytes(k), coqEvents(st.AwaitingEvents[gostatsd.Source(k)]))
 	}
 	look := make([]string, len(st.ToLookup))
+	lookS := make([]string, len(st.ToLookup))
 	for i, s := range st.ToLookup {
 		look[i] = hlib.Bytes(string(s))
-	}
-	gc := &gaugeCatcher{got: map[string]float64{}}
-	x.ch.VerifEmit(gc)
-	g1, ok1 := gc.got["cloudprovider.hosts_queued|type:metric"]
-	g2, ok2 := gc.got["cloudprovider.hosts_queued|type:event"]
-	g3, ok3 := gc.got["cloudprovider.items_queued|type:event"]
-	if !(ok1 && ok2 && ok3) {
-		x.monitors = append(x.monitors, fmt.Sprintf("step %d: emit did not report the three queue gauges: %v", len(x.steps), gc.got))
+		lookS[i] = string(s)
 	}
 	obs := hlib.App("Obs", hlib.List(mmDumps), coqEvents(evs), hlib.List(aM), hlib.List(aE), hlib.List(look),
-		"("+zOfFloat(g1)+", "+zOfFloat(g2)+", "+zOfFloat(g3)+")")
+		"("+zOfFloat(g[0])+", "+zOfFloat(g[1])+", "+zOfFloat(g[2])+")")
 	x.steps = append(x.steps, hlib.Pair(label, obs))
 	x.done = append(x.done, op)
 	tr["down_maps"], tr["down_events"] = len(mms), len(evs)
-	tr["waitM"], tr["waitE"], tr["toLookup"] = mk, ek, len(st.ToLookup)
-	tr["gauges"] = []float64{g1, g2, g3}
+	tr["waitM"], tr["waitE"], tr["toLookup"] = mk, ek, lookS
+	tr["gauges"] = g
 	x.trace = append(x.trace, tr)
 }
 
 func (x *lockExec) finish() hlib.Case {
 	// nothing may reach downstream after the last label was observed
 	time.Sleep(300 * time.Microsecond)
+	x.cancel()
+	select {
+	case <-x.runDone:
+	case <-time.After(wedgeTimeout):
+		x.monitors = append(x.monitors, "Run did not return after its context was cancelled")
+	}
 	if m, e := x.down.counts(); m+e > 0 {
 		x.monitors = append(x.monitors, fmt.Sprintf("%d maps / %d events reached downstream after the last label had completed (duplicate release)", m, e))
 	}
@@ -441,8 +568,11 @@ func (x *lockExec) finish() hlib.Case {
 	case x.nPark > 0:
 		class = "lock/parked-only"
 	}
-	if x.nInfoDup+x.nInfoSpurious > 0 {
-		class += "+spurious"
+	if x.nCollide > 0 {
+		class += "+collision"
+	}
+	if x.nDeepStack > 0 {
+		class += "+stack>=2"
 	}
 	tr := x.trace
 	if len(tr) > 40 {
@@ -454,7 +584,7 @@ func (x *lockExec) finish() hlib.Case {
 		Coq:        hlib.App("Case", hlib.List(x.steps)),
 		Monitors:   x.monitors,
 		Class:      class,
-		Nontrivial: x.nPark >= 2 && x.nPosRelease+x.nNegRelease >= 1 && x.nHit >= 1 && x.nMixed >= 1,
+		Nontrivial: x.nPark >= 2 && x.nPosRelease+x.nNegRelease >= 1 && x.nHit >= 1 && (x.nMixed >= 1 || x.nCollide >= 1 || x.nDeepStack >= 1),
 	}
 }
 
@@ -475,6 +605,7 @@ type world struct {
 	tags    []string
 	insts   map[string][]instIn // per source: one or two versions of its instance
 	known   map[string]*peekEnt // the evolving scripted cache
+	shared  []instIn            // versions of one instance several addresses resolve to (same id; with / without tags)
 	ts      int64
 	evn     int
 }
@@ -490,9 +621,12 @@ func rstr(r *hlib.Rand, lo, hi int, alpha string) string {
 	return string(b)
 }
 
-func newWorld(r *hlib.Rand) *world {
+func newWorld(r *hlib.Rand, backlog bool) *world {
 	w := &world{insts: map[string][]instIn{}, known: map[string]*peekEnt{}, ts: 1000}
 	ns := r.Range(1, 4)
+	if backlog {
+		ns = r.Range(3, 6)
+	}
 	for i := 0; i < ns; i++ {
 		w.sources = append(w.sources, fmt.Sprintf("10.0.%d.%d", r.Intn(3), i+1))
 	}
@@ -515,7 +649,89 @@ func newWorld(r *hlib.Rand) *world {
 			w.insts[s] = append(w.insts[s], in)
 		}
 	}
+	// several addresses of one instance: the same id with the full tag set, with a part of it, with none.
+	// The instance's tags are also tags datapoints carry themselves, so that series which differ only in what
+	// the instance adds become one series after the update.
+	if len(w.sources) >= 2 && r.Chance(2, 3) {
+		full := []string{}
+		for k, n := 0, r.Intn(3); k < n; k++ {
+			full = append(full, "sh"+rstr(r, 1, 1, "abc")+":"+hlib.Pick(r, []string{"x", "y"}))
+		}
+		id := "i-shared"
+		if r.Chance(1, 5) {
+			id = w.sources[0] // an instance id that is itself an address other datapoints come from
+		}
+		w.shared = []instIn{{ID: id, Tags: full}, {ID: id, Tags: []string{}}}
+		if len(full) == 2 {
+			w.shared = append(w.shared, instIn{ID: id, Tags: full[:1]})
+		}
+		w.tags = append(w.tags, full...)
+		for _, s := range w.sources {
+			if r.Chance(2, 3) && s != id {
+				w.insts[s] = append(w.insts[s], w.shared...)
+			}
+		}
+	}
 	return w
+}
+
+// collision builds one batch in which series of different addresses become the same series once the
+// cache hits are applied: same name and type, tags = base + (what the address's instance version lacks)
+func (w *world) collision(r *hlib.Rand) (dps []mmgen.Dp, peek []peekEnt) {
+	full := w.shared[0].Tags
+	base := w.pickTags(r)
+	name := hlib.Pick(r, w.names)
+	typ := r.Range(1, 4)
+	var users []string
+	for _, s := range w.sources {
+		if len(w.insts[s]) > 0 && w.insts[s][len(w.insts[s])-1].ID == w.shared[0].ID {
+			users = append(users, s)
+		}
+	}
+	if len(users) < 2 {
+		return nil, nil
+	}
+	tie := r.Chance(1, 3)
+	w.ts++
+	for _, s := range users {
+		v := hlib.Pick(r, w.shared)
+		vv := v
+		peek = append(peek, peekEnt{S: s, I: &vv})
+		tags := append([]string{}, base...)
+		for _, t := range full { // the tags this version does not add are on the datapoint already
+			if !contains(v.Tags, t) {
+				tags = append(tags, t)
+			}
+		}
+		for k, n := 0, r.Range(1, 2); k < n; k++ {
+			d := w.dp(r, s)
+			d.Name, d.Type, d.Tags = name, typ, tags
+			if gostatsd.MetricType(typ) == gostatsd.SET {
+				d.StrVal, d.Rate, d.Value = hlib.Pick(r, []string{"", "u1", "u2", "u 3", "x"}), math.Float64bits(1), 0
+			} else {
+				d.StrVal, d.Value = "", math.Float64bits(mmgen.ExactValue(r))
+			}
+			if tie {
+				d.TS = w.ts
+			}
+			dps = append(dps, d)
+		}
+	}
+	if w.shared[0].ID == w.sources[0] && r.Chance(1, 2) {
+		// a datapoint that comes from the address the instance id equals, with a negative cache entry
+		d := w.dp(r, w.sources[0])
+		d.Name, d.Type, d.Tags = name, typ, append(append([]string{}, base...), full...)
+		if gostatsd.MetricType(typ) == gostatsd.SET {
+			d.StrVal, d.Rate, d.Value = "x", math.Float64bits(1), 0
+		}
+		dps = append(dps, d)
+		peek = append(peek, peekEnt{S: w.sources[0]})
+	}
+	// a few unrelated datapoints in the same batch
+	for k, n := 0, r.Intn(3); k < n; k++ {
+		dps = append(dps, w.dp(r, w.src(r)))
+	}
+	return dps, peek
 }
 
 func (w *world) src(r *hlib.Rand) string {
@@ -592,7 +808,10 @@ func (w *world) event(r *hlib.Rand) *evIn {
 }
 
 func genLock(r *hlib.Rand, tier string) hlib.Case {
-	w := newWorld(r)
+	// a share of the cases lets lookups pile up (several addresses, few sends at first), so that the
+	// order in which the stack is drained matters
+	backlog := r.Chance(1, 4)
+	w := newWorld(r, backlog)
 	x := newLockExec()
 	n := r.Range(6, 28)
 	if tier == "thorough" && r.Chance(1, 8) {
@@ -605,7 +824,17 @@ func genLock(r *hlib.Rand, tier string) hlib.Case {
 	}
 	for i := 0; i < n; i++ {
 		var op opIn
-		switch k := r.Intn(100); {
+		k := r.Intn(100)
+		if backlog && i < n/2 && k >= 56 && k < 72 && r.Chance(3, 4) {
+			k = r.Intn(56) // arrivals instead of a send
+		}
+		switch {
+		case k < 9 && len(w.shared) > 0:
+			op.Op = "metrics"
+			op.Dps, op.Peek = w.collision(r)
+			if len(op.Dps) == 0 {
+				op.Dps, op.Peek = []mmgen.Dp{w.dp(r, w.src(r))}, w.peek(r)
+			}
 		case k < 32:
 			op.Op = "metrics"
 			nd := r.Range(1, 6)
